@@ -160,40 +160,41 @@ theorem compileStmtH_acc : (s : CStmt) → {st st' : HSt} → {eff : Option ILEf
       · cnt_side
       · cnt_side
   | .for_ v cond 0 body, st, st', eff, b, hv, hd, h => by
-      obtain ⟨cc, s1, bs, bb, s3, h1, h3, rfl, _, rfl⟩ := invS_for0 h
+      obtain ⟨x0, cc, s1, bs, bb, s3, _, h1, h3, rfl, _, rfl⟩ := invS_for0 h
       simp only [stmtNames, List.mem_cons, List.mem_append] at hv
       simp only [noConstTernS, Bool.and_eq_true] at hd
       have hn : isHTmp v = false := hv v (Or.inl rfl)
-      have a0 := (Acc.refl eq st).chk [] (setTmps (chk st (forInit v) []).1) (forInit v) [] false
+      have a0 := (Acc.refl eq st).chk [] (setTmps (chk st (forInit v x0) []).1) (forInit v x0) [] false
         (fun x => by simp [forInit, setTmps_setl_of _ hn]) (fun x => by simp)
       have hC := exprAcc eq env (fun n hn => hv n (Or.inr (Or.inl hn))) (hd.imp id And.left) h1
-      have hP : Acc eq s1 [] (postState s1 v utT "++") := Acc.of_cnt ((cntRelE eq).post s1 v utT "++" hn)
+      have hP : Acc eq s1 [] (postState s1 v (loopVarTy v cond) "++") :=
+        Acc.of_cnt ((cntRelE eq).post s1 v (loopVarTy v cond) "++" hn)
       have hB := compileStmtsH_acc body (fun n hn => hv n (Or.inr (Or.inr hn))) (hd.imp id And.right) h3
-      have a1 := (((a0.trans hC).trans hP).trans hB).chk (setTmps (chk st (forInit v) []).1)
-        (setTmps (chk st (forInit v) []).1 ++ setTmps (chk s3 (mkSeq bs) (bb ++ [tmpName s1.hyb]) true).1)
+      have a1 := (((a0.trans hC).trans hP).trans hB).chk (setTmps (chk st (forInit v x0) []).1)
+        (setTmps (chk st (forInit v x0) []).1 ++ setTmps (chk s3 (mkSeq bs) (bb ++ [tmpName s1.hyb]) true).1)
         (mkSeq bs) (bb ++ [tmpName s1.hyb]) true
         (fun x => by cnt_side) (fun x => by simp [List.count_append])
-      refine a1.chk [] _ (.seqn [(chk st (forInit v) []).1,
+      refine a1.chk [] _ (.seqn [(chk st (forInit v x0) []).1,
         .repeat_ (condIL env.cfg cc) (chk s3 (mkSeq bs) (bb ++ [tmpName s1.hyb]) true).1]) [] false
         (fun x => ?_) (fun x => ?_)
       · cnt_side
       · cnt_side
   | .for_ v cond (k+1) body, st, st', eff, b, hv, hd, h => by
-      obtain ⟨cc, s1, stepEff, stepSrc, bs, bb, s3, h1, h2, h3, rfl, _, rfl⟩ := invS_forK (Nat.succ_ne_zero k) h
+      obtain ⟨x0, cc, s1, stepEff, stepSrc, bs, bb, s3, _, h1, h2, h3, rfl, _, rfl⟩ := invS_forK (Nat.succ_ne_zero k) h
       simp only [stmtNames, List.mem_cons, List.mem_append] at hv
       simp only [noConstTernS, Bool.and_eq_true] at hd
       have hn : isHTmp v = false := hv v (Or.inl rfl)
       have hs := compileAssign_sets h2 (by simpa [exprNames] using hn)
-      have a0 := (Acc.refl eq st).chk [] (setTmps (chk st (forInit v) []).1) (forInit v) [] false
+      have a0 := (Acc.refl eq st).chk [] (setTmps (chk st (forInit v x0) []).1) (forInit v x0) [] false
         (fun x => by simp [forInit, setTmps_setl_of _ hn]) (fun x => by simp)
       have hC := exprAcc eq env (fun n hn => hv n (Or.inr (Or.inl hn))) (hd.imp id And.left) h1
       have hB := compileStmtsH_acc body (fun n hn => hv n (Or.inr (Or.inr hn))) (hd.imp id And.right) h3
-      have a1 := ((a0.trans hC).trans hB).chk (setTmps (chk st (forInit v) []).1)
-        (setTmps (chk st (forInit v) []).1 ++ setTmps (chk s3 (mkSeq (bs ++ [stepEff])) bb true).1)
+      have a1 := ((a0.trans hC).trans hB).chk (setTmps (chk st (forInit v x0) []).1)
+        (setTmps (chk st (forInit v x0) []).1 ++ setTmps (chk s3 (mkSeq (bs ++ [stepEff])) bb true).1)
         (mkSeq (bs ++ [stepEff])) bb true
         (fun x => by simp only [setTmps_mkSeq, setTmpsL_append, setTmpsL, hs]; cnt_side)
         (fun x => by simp [List.count_append])
-      refine a1.chk [] _ (.seqn [(chk st (forInit v) []).1,
+      refine a1.chk [] _ (.seqn [(chk st (forInit v x0) []).1,
         .repeat_ (condIL env.cfg cc) (chk s3 (mkSeq (bs ++ [stepEff])) bb true).1]) [] false
         (fun x => ?_) (fun x => ?_)
       · cnt_side
